@@ -9,6 +9,7 @@ package main
 //                {f, p, n, x, fmt, z, b, got, cerr, panic} for TLC (TimeCal_Trace) (B2)
 //   c18 eval   : one call, for debugging
 //   c18 hreplay, c18 stream : evaluation histories of one compiled expression, see hist.go
+//   c18 zonetab, c18 ztrace : zones as transition tables read from the host's zoneinfo, see zones.go
 
 import (
 	"encoding/json"
@@ -28,7 +29,8 @@ import (
 )
 
 func main() {
-	vh.Main(vh.Commands{"replay": c18Replay, "trace": c18Trace, "eval": c18Eval, "hreplay": c18HReplay, "stream": c18Stream})
+	vh.Main(vh.Commands{"replay": c18Replay, "trace": c18Trace, "eval": c18Eval, "hreplay": c18HReplay, "stream": c18Stream,
+		"zonetab": c18ZoneTab, "ztrace": c18ZTrace})
 }
 
 type M = vh.M
